@@ -68,6 +68,13 @@ type c07env struct {
 
 func (e *c07env) now() time.Time { return e.cur }
 
+// pad16: the 16-byte UID a BypassUID / AdminUID entry of the configuration stands for (zero-padded, cut at 16)
+func pad16(b []byte) []byte {
+	out := make([]byte, 16)
+	copy(out, b)
+	return out
+}
+
 func hexOrDash(b []byte) string {
 	if len(b) == 0 {
 		return "-"
@@ -89,7 +96,7 @@ func (e *c07env) newServer(admin []byte, bypass [][]byte, book []string) {
 	e.rows = map[string]bool{}
 	var bs, ms []string
 	for _, b := range bypass {
-		bs = append(bs, hx(b))
+		bs = append(bs, hx(pad16(b)))
 	}
 	for _, m := range book {
 		ms = append(ms, hx([]byte(strings.ToLower(m))))
@@ -260,7 +267,7 @@ func (e *c07env) checkAccepted(kind, desc string, tr string, pkt []byte, admin b
 	// needs the user to be authorised now, cached in the panel or not
 	authorised := e.active[hx(uid)] && len(joinsExisting) > 0 && joinsExisting[0]
 	for _, b := range e.bypass {
-		if bytes.Equal(b, uid) {
+		if bytes.Equal(pad16(b), uid) { // an entry stands for the 16-byte UID it is a prefix of, zero-padded (State.IsBypass)
 			authorised = true
 		}
 	}
@@ -644,6 +651,25 @@ func c07(c *ctx) {
 		e.conn(append([]byte{0x16, 3, 1, 0x0b, 0xb4}, make([]byte, 10)...), "record length 2996 (one more than fits)")
 		e.conn(r.bytes(200), "random bytes")
 		o.case_(fmt.Sprintf("matrix/%d", round), true)
+	}
+	// BypassUID entries that are not 16 bytes long (operator slip): each stands for itself zero-padded and for nothing else —
+	// in particular not for a UID made of its bytes and the TAIL OF THE PREVIOUS ENTRY
+	{
+		short := []byte("bob")
+		e.newServer(admin, [][]byte{byp, short, {}}, book)
+		mkU := func(uid []byte, sid uint32) []byte {
+			return e.packet(r, "ws", 0, uid, sid, "shadowsocks", 1, false, T, nil).pkt
+		}
+		stranger := append(append([]byte(nil), short...), byp[len(short):]...) // "bob" + tail of the entry before it
+		e.conn(mkU(stranger, 31), "uid made of a short bypass entry and the tail of the entry before it")
+		e.conn(mkU(pad16(short), 32), "short bypass entry, zero-padded")
+		e.conn(mkU(make([]byte, 16), 33), "all-zero uid with an empty bypass entry configured")
+		e.conn(mkU(byp, 34), "full-length bypass entry next to short ones")
+		adm5 := []byte("admin")
+		e.newServer(adm5, [][]byte{byp}, book)
+		strangerAdm := append(append([]byte(nil), adm5...), byp[len(adm5):]...)
+		e.conn(mkU(strangerAdm, 35), "uid made of a short admin uid and the tail of the last bypass entry")
+		o.case_("short bypass entries", true)
 	}
 	// no admin configured: nobody reaches the API, whatever the UID
 	e.newServer(nil, [][]byte{byp}, book)
